@@ -36,8 +36,8 @@ pub fn shape_edges(shape: i64) -> (Vec<u32>, Vec<(u32, u32)>) {
 }
 pub const NUM_SHAPES: i64 = 12;
 
-pub fn case(kind: i64, shape: i64, wmode: i64) -> GraphCase {
-    let specs = Specs { directed: kind & 1 != 0, multi: kind & 2 != 0, self_loops: kind & 4 != 0, dedupe: 1, missing: 0, slfalse: 1 };
+pub fn case(kind: i64, shape: i64, wmode: i64, dedupe: u8) -> GraphCase {
+    let specs = Specs { directed: kind & 1 != 0, multi: kind & 2 != 0, self_loops: kind & 4 != 0, dedupe, missing: 0, slfalse: 1 };
     let (nodes, edges) = shape_edges(shape);
     let mut k = 0;
     let es: Vec<(u32, u32, Option<i64>)> = edges.iter().map(|(u, v)| {
@@ -192,6 +192,11 @@ pub fn observe(t: &mut Toks) -> String {
 
 pub fn all_requests() -> Vec<String> {
     let mut out = vec![];
-    for kind in 0..8 { for shape in 0..NUM_SHAPES { for w in 0..3 { out.push(format!("degen {}", case(kind, shape, w).tokens())); } } }
+    // every duplicate-edge policy under which the shape can be built (a shape with a repeated pair
+    // cannot be built on a single-edge graph under the `Error` policy)
+    for kind in 0..8 { for shape in 0..NUM_SHAPES { for w in 0..3 { for dedupe in 0..3u8 {
+        let c = case(kind, shape, w, dedupe);
+        if c.build().is_ok() { out.push(format!("degen {}", c.tokens())); }
+    } } } }
     out
 }
